@@ -6,6 +6,7 @@ import (
 	"net/http"
 	"net/http/httptest"
 	"net/url"
+	"regexp"
 	"sort"
 	"strconv"
 	"strings"
@@ -611,15 +612,16 @@ type routeImpl struct {
 	rbMask int
 	rbIcpt string
 	// the shared BuildRequestURL object of buildq style 3 (created by the first such call after 'new')
-	rbShared   *rux.BuildRequestURL
-	raGvars    [][2]string // `gvar` ops of the case so far: in force (withGlobalVars) during every registration that follows
-	lastServed string      // path of the last `serve` op (the re-dispatch oracle starts from it)
-	raNil      string      // nil-ness of the params map the last lookup handed out / the last handler saw ("" = none)
-	raEnc      bool        // the router uses the escaped request path (mask bit 128)
-	heldAlm    []string    // an allowed-methods list an earlier QuickMatch returned (the slice itself) and what it read then
-	heldAlmStr string
-	almOracle  []string
-	raRegs     map[int][2]*rux.Route // the *Route values the `reg` ops registered: main router, twin
+	rbShared      *rux.BuildRequestURL
+	raGvars       [][2]string // `gvar` ops of the case so far: in force (withGlobalVars) during every registration that follows
+	handlerStatus string      // when set, the route handlers answer with this status (header X-Verif-Status of the request)
+	lastServed    string      // path of the last `serve` op (the re-dispatch oracle starts from it)
+	raNil         string      // nil-ness of the params map the last lookup handed out / the last handler saw ("" = none)
+	raEnc         bool        // the router uses the escaped request path (mask bit 128)
+	heldAlm       []string    // an allowed-methods list an earlier QuickMatch returned (the slice itself) and what it read then
+	heldAlmStr    string
+	almOracle     []string
+	raRegs        map[int][2]*rux.Route // the *Route values the `reg` ops registered: main router, twin
 }
 
 func fmtParams(ps rux.Params) string {
@@ -637,6 +639,9 @@ func fmtParams(ps rux.Params) string {
 	}
 	return strings.Join(out, ",")
 }
+
+// routeHandlerBody: a body written by a route handler ("R<id>:<params>"), not by a built-in 404/405 handler
+var routeHandlerBody = regexp.MustCompile(`R\d+:`)
 
 func routeHandler(id int, mutate bool) rux.HandlerFunc {
 	return func(c *rux.Context) {
@@ -660,6 +665,9 @@ func routeHandler(id int, mutate bool) rux.HandlerFunc {
 		fmt.Fprintf(&sb, "R%d:", id)
 		for _, k := range ks {
 			sb.WriteString(k + "=" + c.Params[k] + ";")
+		}
+		if st := c.Req.Header.Get("X-Verif-Status"); st != "" { // the resource the path names does not exist: the HANDLER says 404
+			c.SetStatus(atoi(st))
 		}
 		c.WriteString(sb.String())
 	}
@@ -782,6 +790,9 @@ func (im *routeImpl) serveFwd(r *rux.Router, m, from, p string) string {
 func (im *routeImpl) serve(r *rux.Router, m, p string) string {
 	w := httptest.NewRecorder()
 	req := &http.Request{Method: m, URL: &url.URL{Path: p}, Header: http.Header{}, Proto: "HTTP/1.1", ProtoMajor: 1, ProtoMinor: 1}
+	if im.handlerStatus != "" {
+		req.Header.Set("X-Verif-Status", im.handlerStatus)
+	}
 	if im.raEnc { // UseEncodedPath: p is the escaped path of the request
 		u, ok := raEscapedURL(p)
 		if !ok {
@@ -928,6 +939,21 @@ func (e routeEngine) Run(ops []string) (ans []string, oracle []string) {
 					}
 				}
 				im.lastServed = p
+			}
+			// the same request again, this time the route's HANDLER answers 404 (the resource behind the path is gone): what
+			// a handler answers is not the router's business - same body, and (the `ckeys` ops show it) the same route cache.
+			// (The entry of the request just served is the most recent one, the repeat does not reorder the LRU list.)
+			if af := strings.Fields(a); f[0] == "serve" && len(af) == 3 && af[0] == "200" && routeHandlerBody.MatchString(mustUnhx(af[2])) {
+				im.handlerStatus = "404"
+				again := guarded(func() string { return im.serve(im.r, m, p) })
+				im.handlerStatus = ""
+				want := "404 " + strings.TrimPrefix(a, "200 ")
+				if !strings.HasPrefix(mustUnhx(af[2]), "R") { // a middleware wrote first: the 200 was committed before the handler ran
+					want = a
+				}
+				if again != want {
+					oracle = append(oracle, fmt.Sprintf("C14 a route handler that answers 404: %q, with status 200 it was %q: %s", again, a, op))
+				}
 			}
 			if im.twin != nil {
 				im.raNil = ""
